@@ -15,7 +15,7 @@ stateful protocol (one object at a time):
   geom                            -> n z0 h r … | ValueError       (generate_geometry)
   notified                        -> count of notifier.notify() calls
 stateless:
-  erf <x> ; seg <r> <L> ; specc <lo> <hi> <n> ; specg <lo> <hi> <n> <mean> <stddev>
+  erf <x> ; seg <r> <L> ; pow c|d|g <lo> <hi> <n> [<mean> <stddev>] ; specc <lo> <hi> <n> ; specg <lo> <hi> <n> <mean> <stddev>
 -/
 
 def sqrtPi : Float := Float.sqrt 3.141592653589793
@@ -100,6 +100,17 @@ def step (st : St) (ts : List String) : St × String :=
     let (lo, hi, n, mean, sd) := (pF lo, pF hi, pN n, pF mean, pF sd)
     let k := evalRhs extF .gaussCdfNorm sd
     (st, fFs (wavelengths lo hi n ++ psdList (gaussBinPsd erfF mean k (delta lo hi n)) lo hi n))
+  -- per-bin power (`power_mv`, what the scattering models read): "pow <kind> lo hi n [mean sd]"
+  | ["pow", "c", lo, hi, n] =>
+    let (lo, hi, n) := (pF lo, pF hi, pN n)
+    (st, fFs (powerList (trapezoidPsd (constEval lo hi)) lo hi n))
+  | ["pow", "d", lo, hi, n] =>
+    let (lo, hi, n) := (pF lo, pF hi, pN n)
+    (st, fFs (powerList (fun _ _ => 1.0 / (hi - lo)) lo hi n))
+  | ["pow", "g", lo, hi, n, mean, sd] =>
+    let (lo, hi, n, mean, sd) := (pF lo, pF hi, pN n, pF mean, pF sd)
+    let k := evalRhs extF .gaussCdfNorm sd
+    (st, fFs (powerList (gaussBinPsd erfF mean k (delta lo hi n)) lo hi n))
   | ["specd", lo, hi, n] =>
     let (lo, hi, n) := (pF lo, pF hi, pN n)
     (st, fFs (wavelengths lo hi n ++ psdList (fun _ _ => 1.0 / (hi - lo)) lo hi n))
